@@ -7,11 +7,14 @@ package main
 // variant are asserted and the path ends.
 
 import (
+	"context"
+	"crypto/sha256"
 	"fmt"
 	"go/token"
 	"go/types"
 	"sort"
 	"strings"
+	"time"
 
 	"golang.org/x/tools/go/ssa"
 )
@@ -121,10 +124,10 @@ func (x *Exec) verifyFunction() {
 	x.run(st)
 }
 
-var globalQN int
+
 
 func (x *Exec) contractEnv(st *State, results []SV, old HeapView) *CEnv {
-	env := &CEnv{x: x, vars: map[string]SV{}, cur: st.heap, old: old, qn: &globalQN, wmOld: st.entryWM, wmCur: st.wm}
+	env := &CEnv{x: x, vars: map[string]SV{}, cur: st.heap, old: old, qn: &x.qn, wmOld: st.entryWM, wmCur: st.wm}
 	for k, v := range x.params {
 		env.vars[k] = v
 	}
@@ -558,8 +561,14 @@ func (x *Exec) atLoopHead(st *State, li *loopInfo) bool {
 		x.paths++
 		return false
 	}
-	// first arrival
+	// first arrival.  Drop the path if its condition is already contradictory:
+	// obligations on an infeasible path are vacuously true, so this only saves work.
+	if x.paths+len(x.obls) > 40 && x.infeasible(st) {
+		x.pruned++
+		return false
+	}
 	env := x.loopEnv(st, li)
+	x.assumeLoopUses(st, li, env)
 	for _, c := range invs {
 		x.assert(st, fmt.Sprintf("inv-entry:%d:%s", ord, c.Label), env.evalBool(c.Expr), c.Text, token.NoPos)
 	}
@@ -576,6 +585,19 @@ func (x *Exec) atLoopHead(st *State, li *loopInfo) bool {
 	fr.loopSeen[li.head] = vis
 	x.addCover(st, fmt.Sprintf("loop%d", ord))
 	return true
+}
+
+// infeasible asks old z3 (fast, short timeout) whether the path condition is unsatisfiable.
+func (x *Exec) infeasible(st *State) bool {
+	q := &Query{Name: "feas", Assumes: st.assumes, Goal: BoolC(false)}
+	text := q.smtlib(false, "z3")
+	h := sha256.Sum256([]byte("feas" + text))
+	if r, ok := vcCache.Load(string(h[:])); ok {
+		return r.(Result).Status == "unsat"
+	}
+	r := runSolver(context.Background(), "z3", q, false, time.Second)
+	vcCache.Store(string(h[:]), r)
+	return r.Status == "unsat"
 }
 
 func (x *Exec) assumeLoopUses(st *State, li *loopInfo, env *CEnv) {
